@@ -45,6 +45,26 @@ CHECKS = {
             'Impairment profile values and consistency of per-degree dicts with the topology are data and not decided.',
             'value graph (dB/linear lemmas, min/max via |x|) + decision-list/table agreement + persistent-state dataflow',
             'DESIGN.md 4 C06'),
+    'C13': ('other',
+            'The three feasibility verdicts are extracted from the value graph of the planning functions and compared on '
+            'metric (round(min_ch(snr_01nm - total_penalty), 2) of the propagated path\'s receiver), threshold (mode OSNR '
+            '+ system margin), orientation and consequence; update_snr is a function of the raw figures and its arguments '
+            'only, its four outputs tied by exact identities to one added-noise term, each supplied OSNR added once; the '
+            'OSNR list in the mode loop is append/remove balanced on the flow graph; penalties are rebuilt on every call '
+            'with infinite penalty outside the table; exploration order baud rate then bit rate descending.',
+            'The numeric values are not decided; round() is uninterpreted; numpy interp semantics trusted.',
+            'value-graph condition extraction + def-use (no self-dependence) + CFG typestate on the OSNR list',
+            'DESIGN.md 4 C13'),
+    'C16': ('other',
+            'Non-interference argument decided structurally: every propagation reachable from planning() runs on a deep '
+            'copy; propagation and all element __call__ closures write no global/class/library state; the per-element '
+            'state surviving a propagation and read by the next equals a frozen reasoned table (Edfa.effective_gain); '
+            'redesign only under the flag; shared spectrum state only reaches spectrum assignment after propagation; no '
+            'side-effecting per-request call is skipped through a cross-request memo table.',
+            'deepcopy semantics and the enumerated ways of writing state are trusted; aggregation/disjunction couple '
+            'requests by design.',
+            'effect summaries over the call graph + persistent-state (upward-exposed read / write) dataflow + def-use + CFG dominance',
+            'DESIGN.md 4 C16'),
     'C14': ('other',
             'Decides the structural obligations behind "no double booking / blocked request changes nothing": the '
             'scratch OMS never aliases a real bitmap (list-freshness dataflow on every path), spectrum is committed '
